@@ -131,7 +131,7 @@ class FakeFlows:
         torch.set_default_dtype(self._dtype)
 
 
-def make_model(dims, seed, cut=False, uprior=False, lcut=False, loffset=0.0):
+def make_model(dims, seed, cut=False, uprior=False, lcut=False, loffset=0.0, nobounds=False):
     """2..3-d Gaussian likelihood, uniform prior on a box; with `cut` the prior is zero on part of the box
     (x0 + x1 > 2), i.e. log_prior = -inf inside the bounds — a legal constrained model; with `uprior` the prior is NOT
     flat: density 1 + 0.8 (u0 - 1/2) in the unit hypercube (log_prior_unit_hypercube overridden, as in nessai's
@@ -145,6 +145,10 @@ def make_model(dims, seed, cut=False, uprior=False, lcut=False, loffset=0.0):
             self.mu = [0.5 * (i + 1) for i in range(dims)]
 
         def log_prior(self, x):
+            if nobounds:
+                # a prior that does NOT test the bounds itself (constant density; verify_model accepts it): keeping samples
+                # inside the unit hypercube is then entirely the sampler's job (seeded change C03-eB)
+                return np.zeros(x.size) - dims * math.log(8.0)
             ok = self.in_bounds(x)
             if cut:
                 ok = ok & ((x[self.names[0]] + x[self.names[1]]) <= 2.0)
@@ -213,7 +217,7 @@ def run_fake(cfg, seed, outdir, resume_after=None):
     np.random.seed(seed)
     torch.manual_seed(seed)
     dims = cfg["dims"]
-    model = make_model(dims, seed, cfg.get("cut", False), cfg.get("uprior", False), cfg.get("lcut", False))
+    model = make_model(dims, seed, cfg.get("cut", False), cfg.get("uprior", False), cfg.get("lcut", False), 0.0, cfg.get("nobounds", False))
     snaps = []
     with FakeFlows(dims, cfg["reparam"] == "logit", None) as ff:
         sampler = ImportanceNestedSampler(
@@ -248,7 +252,7 @@ def run_fake(cfg, seed, outdir, resume_after=None):
             del snaps[mid:]
             with open(os.path.join(outdir, "ckpt_mid.pkl"), "rb") as f:
                 sm = pickle.load(f)
-            sampler = ImportanceNestedSampler.resume_from_pickled_sampler(sm, make_model(dims, seed, cfg.get("cut", False), cfg.get("uprior", False), cfg.get("lcut", False)))
+            sampler = ImportanceNestedSampler.resume_from_pickled_sampler(sm, make_model(dims, seed, cfg.get("cut", False), cfg.get("uprior", False), cfg.get("lcut", False), 0.0, cfg.get("nobounds", False)))
             snaps.append(snapshot(sampler, "resumed"))
             np.random.seed(seed + 1)
             torch.manual_seed(seed + 1)
@@ -261,7 +265,7 @@ def run_fake(cfg, seed, outdir, resume_after=None):
             with open(os.path.join(outdir, "ckpt.pkl"), "rb") as f:
                 s2 = pickle.load(f)
             s2.resume_from_pickled_sampler  # noqa (attribute exists)
-            model2 = make_model(dims, seed, cfg.get("cut", False), cfg.get("uprior", False), cfg.get("lcut", False))
+            model2 = make_model(dims, seed, cfg.get("cut", False), cfg.get("uprior", False), cfg.get("lcut", False), 0.0, cfg.get("nobounds", False))
             s2 = ImportanceNestedSampler.resume_from_pickled_sampler(s2, model2)
             snaps.append(snapshot(s2, "resumed"))
         return snaps, level_c, sampler
@@ -486,6 +490,7 @@ CONFIGS = [
 ]
 # likelihood that is -inf on part of the prior support: oracle-only runs (the Rat replay takes likelihood keys as finite numbers)
 LCUT_CONFIGS = [
+    dict(dims=2, nlive=80, levels=3, strict=False, replace_all=False, draw_constant=True, iid=True, reparam=None, q=0.5, min_samples=20, save_log_q=True, weighted_kl=True, nobounds=True),
     dict(dims=2, nlive=80, levels=3, strict=False, replace_all=False, draw_constant=True, iid=True, reparam="logit", q=0.5, min_samples=20, save_log_q=True, weighted_kl=True, lcut=True),
     dict(dims=2, nlive=80, levels=3, strict=True, replace_all=False, draw_constant=True, iid=False, reparam=None, q=0.5, min_samples=20, save_log_q=False, weighted_kl=False, lcut=True),
 ]
@@ -545,7 +550,7 @@ def one_real_run(ctx, cfg, seed):
     case = {"kind": "neural-flow run", "cfg": cfg, "seed": seed}
     snaps = []
     try:
-        model = make_model(cfg["dims"], seed, cfg.get("cut", False), cfg.get("uprior", False), cfg.get("lcut", False))
+        model = make_model(cfg["dims"], seed, cfg.get("cut", False), cfg.get("uprior", False), cfg.get("lcut", False), 0.0, cfg.get("nobounds", False))
         sampler = ImportanceNestedSampler(
             model, nlive=cfg["nlive"], output=tmp, seed=seed, plot=False, checkpointing=False,
             min_samples=cfg["min_samples"], max_iteration=cfg["levels"], min_iteration=cfg["levels"],
